@@ -840,6 +840,13 @@ func runStepM(st *scnState, step *scnStep, withMetrics bool) (res stepResult) {
 					st.b.DCMISensors[uint8(atoi(k))] = v
 				}
 			}
+			if step.BMCSet.Suites != nil {
+				var ss []sim.Suite
+				for _, s := range step.BMCSet.Suites {
+					ss = append(ss, sim.Suite{ID: uint8(s[0]), Auth: uint8(s[1]), Integ: uint8(s[2]), Conf: uint8(s[3])})
+				}
+				st.b.SetSuites(ss)
+			}
 			if step.BMCSet.PageSize > 0 {
 				st.b.DCMIPageSize = step.BMCSet.PageSize
 			}
@@ -950,6 +957,13 @@ func runStepM(st *scnState, step *scnStep, withMetrics bool) (res stepResult) {
 				res.Err = "noreader"
 				return
 			}
+			// the caller goes on to decode the next record into the same FullSensorRecord value (the reuse idiom the
+			// library's layers invite): a reader must keep the factors of the record it was built from
+			other := unhex(step.FSR)
+			for i := 19; i < 25 && i < len(other); i++ {
+				other[i] ^= 0x5A
+			}
+			_ = fsr.DecodeFromBytes(other, gopacket.NilDecodeFeedback)
 			v, err := reader.Read(ctx, session)
 			res.Err = classifyErr(err)
 			if err == nil {
